@@ -49,15 +49,21 @@ def r1_bounded(ctx):
             ol = op_local(other[0])
             for x in f.copy_chain(ol):
                 for d in f.defs(x):
+                    sub = None
                     if d["kind"] == "assign" and d["rv"][0] == "bin" and d["rv"][1].startswith("Sub"):
-                        c = op_const(d["rv"][3])
-                        inner = _min_any(f, d["rv"][2])
+                        sub = (d["rv"][2], d["rv"][3])
+                    elif d["kind"] == "call" and (callee_of(d["term"]) or {}).get("name") in ("saturating_sub", "wrapping_sub") \
+                            and (callee_of(d["term"]) or {}).get("name") == "saturating_sub" and len(d["term"]["a"]) == 2:
+                        sub = (d["term"]["a"][0], d["term"]["a"][1])
+                    if sub:
+                        c = op_const(sub[1])
+                        inner = _min_any(f, sub[0])
                         if c and c.get("v") == "1" and inner is not None:
                             fs = [arg_slice(f, inner, i) for i in range(2)]
                             has_field = any(2 in s_["args"] and "degree" in {(callee_of(f.term(b)) or {}).get("name") for b in s_["calls"]} for s_ in fs)
                             if has_field:
                                 ok = True
-                                how = "stored value = min(min(base_field_bits * degree, query_security) - 1, collision_resistance): strictly below the extension field size"
+                                how = "stored value = min(min(base_field_bits * degree, query_security) - 1 (saturating at 0), collision_resistance): strictly below the extension field size whenever that size is positive"
         ctx.ob("R1", "conjectured<field-security", ok, how, f, s["sp"]["at"])
     g = p.fn(SEC + "ProvenSecurity::compute")
     aggs = [s for b in g.blocks for s in b["s"] if s["k"] == "assign" and s["rv"][0] == "agg"
